@@ -1,6 +1,7 @@
 """Sidecar contracts for pjrpc/common/common.py and the server JSON encoder."""
 from pyvc.api import contract
 from spec.prims import same
+from spec.wire import error_wire, request_wire, response_wire
 
 from pjrpc.common.common import UNSET
 from pjrpc.common.exceptions import JsonRpcError
@@ -20,8 +21,16 @@ def params_ok(p):
     return p is None or isinstance(p, (list, tuple, dict))
 
 
+def one_kind(o):
+    """A-classes: no user class derives from two of the library's message classes at once"""
+    n = ((1 if isinstance(o, Request) else 0) + (1 if isinstance(o, Response) else 0)
+         + (1 if isinstance(o, BatchRequest) else 0) + (1 if isinstance(o, BatchResponse) else 0)
+         + (1 if isinstance(o, JsonRpcError) else 0))
+    return n <= 1
+
+
 def message_inv(o):
-    return ((not isinstance(o, Request) or params_ok(o._params))
+    return (one_kind(o) and (not isinstance(o, Request) or params_ok(o._params))
             and (not isinstance(o, Response) or response_inv(o)))
 
 
@@ -38,3 +47,13 @@ class JSONEncoderDefault:
 
     def returns_iff(self, o):
         return library_message(o)
+
+    def ensures_wire(self, o, result):
+        # the replacement IS the message's wire form
+        if isinstance(o, Request):
+            return request_wire(result, o)
+        if isinstance(o, Response):
+            return response_wire(result, o)
+        if isinstance(o, JsonRpcError):
+            return error_wire(result, o)
+        return True
